@@ -9,7 +9,9 @@ import (
 	"io"
 	"log"
 	"net/url"
+	"os"
 	"strings"
+	"sync/atomic"
 	"time"
 
 	"github.com/nsqio/nsq/nsqlookupd"
@@ -181,21 +183,38 @@ func isValidName(s string) bool {
 	return true
 }
 
+// loopbackHost: every daemon of a run listens on its own 127.x.y.z address (the whole
+// 127/8 is loopback), so that the TIME_WAIT sockets left by tens of thousands of short
+// histories never exhaust one address's port space ("bind: address already in use").
+var hostCounter uint32
+
+func loopbackHost() string {
+	c := atomic.AddUint32(&hostCounter, 1)
+	return fmt.Sprintf("127.%d.%d.%d", 1+os.Getpid()%250, (c/250)%250, 1+c%250)
+}
+
 func startLookupd(inactive, lifetime time.Duration) *nsqlookupd.NSQLookupd {
-	opts := nsqlookupd.NewOptions()
-	opts.Logger = log.New(io.Discard, "", 0)
-	opts.LogLevel = 4
-	opts.TCPAddress = "127.0.0.1:0"
-	opts.HTTPAddress = "127.0.0.1:0"
-	opts.BroadcastAddress = "127.0.0.1"
-	opts.InactiveProducerTimeout = inactive
-	opts.TombstoneLifetime = lifetime
-	l, err := nsqlookupd.New(opts)
-	if err != nil {
-		lib.Fatalf("nsqlookupd.New: %v", err)
+	var lastErr error
+	for try := 0; try < 20; try++ {
+		host := loopbackHost()
+		opts := nsqlookupd.NewOptions()
+		opts.Logger = log.New(io.Discard, "", 0)
+		opts.LogLevel = 4
+		opts.TCPAddress = host + ":0"
+		opts.HTTPAddress = host + ":0"
+		opts.BroadcastAddress = host
+		opts.InactiveProducerTimeout = inactive
+		opts.TombstoneLifetime = lifetime
+		l, err := nsqlookupd.New(opts)
+		if err == nil {
+			go func() { _ = l.Main() }()
+			return l
+		}
+		lastErr = err
+		time.Sleep(time.Duration(50*(try+1)) * time.Millisecond)
 	}
-	go func() { _ = l.Main() }()
-	return l
+	lib.Fatalf("nsqlookupd.New: %v", lastErr)
+	return nil
 }
 
 func coqQuery(n *namer, t, c, node *string) string {
